@@ -453,7 +453,7 @@ impl Property for C18 {
     }
     fn budget(&self, tier: Tier) -> u64 {
         match tier {
-            Tier::Quick => 2_500,
+            Tier::Quick => 8_000,
             Tier::Thorough => 250_000,
         }
     }
